@@ -312,16 +312,15 @@ Definition readback (o : opts) (h : hint) (v : vkind) (id : nat) : got :=
 
 Theorem set_then_get : forall fields o h s k v id s',
   set_field fields false o h s k v id = SOk s' ->
-  (place o h v = PCollFromDict -> lookup k (s_nt s) = None) ->
   getattr fields s' k = readback o h v id.
 Proof.
-  intros fields o h s k v id s' H Hc. unfold set_field in H. cbn in H.
+  intros fields o h s k v id s' H. unfold set_field in H. cbn in H.
   destruct (mem k fields) eqn:M; cbn in H; [|discriminate].
   unfold getattr, readback. rewrite M. rewrite lookup_nil_guard.
   destruct (place o h v) eqn:P; inversion H; subst; cbn.
   - rewrite lookup_remove_same, lookup_upd_same. destruct v; reflexivity.
   - rewrite lookup_remove_same, lookup_upd_same. reflexivity.
-  - rewrite (Hc eq_refl), lookup_upd_same. reflexivity.
+  - rewrite lookup_remove_same, lookup_upd_same. reflexivity.
   - rewrite lookup_upd_same. reflexivity.
 Qed.
 
@@ -411,32 +410,16 @@ Proof.
   - intros x Hx. apply keys_upd in Hx. destruct Hx as [Hx|Hx]; [auto | subst; exact Hk].
 Qed.
 
-Lemma wf_upd_td : forall fields s k v, wfb fields s = true -> In k fields -> ~ In k (keys (s_nt s)) ->
-  wfb fields {| s_td := upd k v (s_td s); s_nt := s_nt s |} = true.
-Proof.
-  intros fields s k v W Hk Hn. pose proof (wfb_cases fields s W) as Wc. apply wfb_inv in W. destruct W as [_ [W2 W3]].
-  apply wfb_intro; cbn [s_td s_nt].
-  - intros f Hf. rewrite keys_upd. destruct (string_dec f k) as [E|E].
-    + subst. left. split; [right; reflexivity | exact Hn].
-    + specialize (Wc f Hf). destruct Wc as [[A B]|[A B]].
-      * left. split; [left; exact A | exact B].
-      * right. split; [intros [X|X]; contradiction | exact B].
-  - intros x Hx. apply keys_upd in Hx. destruct Hx as [Hx|Hx]; [auto | subst; exact Hk].
-  - exact W3.
-Qed.
-
-(* the invariant "every field in exactly one store" is kept by an assignment (except the autocast-from-dict path on a field
-   currently held as None, see set_wf_refuted in Props/C15.v) *)
+(* the invariant "every field in exactly one store" is kept by an assignment *)
 Theorem set_wf : forall fields o h s k v id s',
-  wfb fields s = true -> set_field fields false o h s k v id = SOk s' ->
-  (place o h v = PCollFromDict -> lookup k (s_nt s) = None) -> wfb fields s' = true.
+  wfb fields s = true -> set_field fields false o h s k v id = SOk s' -> wfb fields s' = true.
 Proof.
-  intros fields o h s k v id s' W H Hc.
+  intros fields o h s k v id s' W H.
   unfold set_field in H. cbn in H. destruct (mem k fields) eqn:M; cbn in H; [|discriminate]. apply mem_In in M.
   destruct (place o h v) eqn:P; inversion H; subst; clear H.
   - apply wf_move_to_td; assumption.
   - apply wf_move_to_td; assumption.
-  - apply wf_upd_td; try assumption. apply lookup_None_keys. apply Hc. reflexivity.
+  - apply wf_move_to_td; assumption.
   - apply wf_move_to_nt; assumption.
 Qed.
 
